@@ -31,9 +31,11 @@ def gen_cfg(rng):
 
 def gen_scenario(rng, style=None):
     c = gen_cfg(rng)
-    style = style or rng.choice(["mixed", "mixed", "burst", "resize", "drain", "drain", "retire_drain", "late_events"])
+    style = style or rng.choice(["mixed", "mixed", "burst", "resize", "drain", "drain", "retire_drain", "late_events", "update", "update"])
     if style == "retire_drain":
         return gen_retire_drain(rng)
+    if style == "update":
+        return gen_update(rng)
     ops = [("settle",)]
     settles = 1
     nid = 0
@@ -48,12 +50,18 @@ def gen_scenario(rng, style=None):
     # routers); B = a shrink stops the worker and the pool grows again over the same slot meanwhile
     we = {"late_events": 4.0, "resize": 1.0}.get(style, 0.5)
     size = max(c["n0"], 0)
+    cur_disc = "none" if c["discard"] is None else f"{c['discard'][0]}:{c['discard'][1]}"
     if c["rate"]:
         wa = 2.0
     drain_at = rng.randint(2, budget) if style == "drain" or rng.random() < 0.25 else None
     step = 0
     while step < budget and settles < 40:
         step += 1
+        if rng.random() < 0.06:
+            cur_disc = gen_discard_update(rng)
+            ops += [("upd", cur_disc), ("settle",)]
+            settles += 1
+            continue
         if drain_at is not None and step == drain_at and not drained:
             ops += [("drain",), ("settle",)]
             settles += 1
@@ -64,7 +72,7 @@ def gen_scenario(rng, style=None):
             if drained or size == 0:
                 continue
             w = rng.randrange(size)
-            newest0 = c["discard"] is not None and c["discard"] == ("newest", 0)
+            newest0 = cur_disc.endswith("newest:0")
             if c["router"] in ("rr", "custom", "kp") and not newest0 and rng.random() < 0.5:
                 ops += [("stopw", w), ("settle",)]
                 settles += 1
@@ -132,6 +140,59 @@ def gen_scenario(rng, style=None):
         ops += [("finall",), ("settle",)]
     ops += [("q",), ("settle",)]
     return {"cfg": c, "ops": ops, "style": style}
+
+
+def gen_update(rng):
+    """runtime UpdateSettings{discard_settings}: workers (or the factory queue) are loaded, the settings are
+    replaced (None -> limit, limit change, mode switch, limit -> None), bursts follow onto the workers that
+    existed before the update"""
+    c = gen_cfg(rng)
+    c["rate"] = None
+    c["n0"] = rng.choice([1, 1, 2, 2, 3])
+    if rng.random() < 0.5:
+        c["discard"] = None
+    ops = [("settle",)]
+    nid = 0
+    settles = 1
+    kp = c["router"] in ("kp", "sticky")
+
+    def burst(n):
+        nonlocal nid, settles
+        for _ in range(n):
+            nid += 1
+            if kp:
+                rk, prio, disc = rng.choice([(0, 3, 1), (0, 3, 1), (1, 3, 1), (2, 1, 1), (5, 4, 1)])
+            else:
+                rk, prio, disc = rng.randint(0, 7), rng.choice([1, 3, 3, 4]), 1 if rng.random() < 0.85 else 0
+            ops.append(("d", nid, rk, prio, disc))
+            if rng.random() < 0.25:
+                ops.append(("settle",))
+                settles += 1
+        if ops[-1] != ("settle",):
+            ops.append(("settle",))
+            settles += 1
+
+    burst(rng.choice([2, 4, 6]))
+    for _ in range(rng.choice([1, 2, 3])):
+        ops += [("upd", gen_discard_update(rng)), ("settle",)]
+        settles += 1
+        for _ in range(rng.choice([1, 2])):
+            burst(rng.choice([2, 3, 5]))
+            r = rng.random()
+            if r < 0.3:
+                ops += [("finw", rng.randrange(c["n0"])), ("settle",)]
+                settles += 1
+            elif r < 0.4:
+                ops += [("q",), ("settle",)]
+                settles += 1
+            elif r < 0.5:
+                n = rng.choice([1, 2, 3])
+                ops += [("resize", n), ("settle",)]
+                settles += 1
+    for _ in range(max(0, min(nid + 2, 85 - settles))):
+        ops += [("finall",), ("settle",)]
+    ops += [("q",), ("settle",)]
+    return {"cfg": c, "ops": ops, "style": "update"}
 
 
 def gen_retire_drain(rng):
@@ -213,6 +274,21 @@ def cfg_term(c, ops=()):
     return f"(mkFcfg {router} {queue} {disc} {rate} {c['n0']} {table})"
 
 
+def disc_term(d):
+    """none | newest:L | oldest:L | dyn-newest:L | dyn-oldest:L  (Dynamic = Static between two 10 s ping cycles)"""
+    if d == "none":
+        return "None"
+    m, l = d.split(":")
+    return f"(Some ({l}, {'Newest' if m.endswith('newest') else 'Oldest'}))"
+
+
+def gen_discard_update(rng):
+    r = rng.random()
+    if r < 0.15:
+        return "none"
+    return rng.choice(["newest", "oldest", "dyn-newest", "dyn-oldest"]) + ":" + str(rng.choice([0, 1, 1, 2, 2, 3]))
+
+
 def op_term(o):
     k = o[0]
     if k == "d":
@@ -220,7 +296,8 @@ def op_term(o):
     return {"finw": lambda: f"FFinishW {o[1]}", "failw": lambda: f"FFailW {o[1]}", "kill": lambda: f"FKill {o[1]}",
             "resize": lambda: f"FResize {o[1]}", "drain": lambda: "FDrain", "adv": lambda: f"FAdv {o[1]}",
             "settle": lambda: "FSettle", "q": lambda: "FQuery", "finall": lambda: "FFinishAll",
-            "stopw": lambda: f"FStopW {o[1]}", "openstop": lambda: f"FOpenStop {o[1]}"}[k]()
+            "stopw": lambda: f"FStopW {o[1]}", "openstop": lambda: f"FOpenStop {o[1]}",
+            "upd": lambda: "FUpdate " + disc_term(o[1])}[k]()
 
 
 def model_ops(ops):
@@ -337,7 +414,7 @@ def factory_part(chk, build, factor):
         chk.count("factory.style." + s.get("style", "corpus"))
         chk.count("factory.router." + s["cfg"]["router"])
         for o in s["ops"]:
-            if o[0] in ("stopw", "gatestop", "openstop", "resize", "drain", "kill", "failw"):
+            if o[0] in ("stopw", "gatestop", "openstop", "resize", "drain", "kill", "failw", "upd"):
                 chk.count("factory.op." + o[0])
         chk.count("factory.discard." + ("none" if s["cfg"]["discard"] is None else s["cfg"]["discard"][0]))
         flat = [e for w in iw for e in w]
